@@ -458,6 +458,7 @@ def run(scn, keep_log=False, real_server=None):
     res.executed_choices = list(k.executed)
     res.line_events = k.line_counter
     res.io = k.io
+    res.scn_callers = scn['callers']
     res.log = k.events if keep_log else None
     return res
 
